@@ -36,6 +36,8 @@ def content(kind, tag):
         if kind == "v10xml":
             return CV.render_xml(g)
         dd = CV.render_dict(g)
+        if kind == "v10jsontab":
+            return json.dumps(dd, indent="\t")             # JSON indented with tabs (legal JSON, not YAML)
         return json.dumps(dd) if kind == "v10json" else yaml.safe_dump(dd)
     if kind.startswith("v11"):
         from odml.tools.odmlparser import ODMLWriter
@@ -130,7 +132,9 @@ def fc_cases():
         for rec in (False, True):
             for outmode in ("implicit", "explicit"):
                 for sub in (False, True):
-                    yield [{"target": target, "recursive": rec, "outdir": outmode, "sub": sub}]
+                    # names "dotted": directories with a dot in their name, the second file without an extension
+                    yield [{"target": target, "recursive": rec, "outdir": outmode, "sub": sub, "names": "plain"}]
+                    yield [{"target": target, "recursive": rec, "outdir": outmode, "sub": sub, "names": "dotted"}]
 
 
 def fc_replay(t):
@@ -140,13 +144,15 @@ def fc_replay(t):
     kind = "v10xml" if target == "v1_1" else "v11xml"
     d = tempfile.mkdtemp(prefix="fc", dir=os.environ.get("TMPDIR"))
     try:
-        indir = os.path.join(d, "input"); os.makedirs(os.path.join(indir, "sub"))
-        given = os.path.join(d, "given"); os.makedirs(given)
+        dotted = t.get("names") == "dotted"
+        inname = "exp.v2" if dotted else "input"
+        indir = os.path.join(d, inname); os.makedirs(os.path.join(indir, "sub"))
+        given = os.path.join(d, "results.2019" if dotted else "given"); os.makedirs(given)
         files = [{"kind": kind, "ext": "xml", "where": "top"}, {"kind": kind, "ext": "xml", "where": "sub" if t["sub"] else "top"}]
         paths = []
         for i, f in enumerate(files):
             tag = "f%d" % (i + 1)
-            p = os.path.join(indir, "sub" if f["where"] == "sub" else "", "%s.xml" % tag)
+            p = os.path.join(indir, "sub" if f["where"] == "sub" else "", ("%s" if (dotted and i == 1) else "%s.xml") % tag)
             open(p, "w").write(content(kind, tag))
             paths.append(p)
         before = {p: sha(p) for p in paths}
@@ -161,12 +167,12 @@ def fc_replay(t):
         except BaseException as e:
             out = "raised:" + type(e).__name__
         created = [p for p in listing(d) if p not in pre]
-        outroot = given if outmode == "explicit" else os.path.join(d, "input_" + target)
+        outroot = given if outmode == "explicit" else os.path.join(d, inname + "_" + target)
         where = ["inputdir" if p.startswith(indir + os.sep) else "outdir" if p.startswith(outroot + os.sep) else "elsewhere" for p in created]
         frecs = []
         for i, (f, p) in enumerate(zip(files, paths)):
             tag = "f%d" % (i + 1)
-            outs = [c for c in created if os.path.basename(c).startswith(tag + ".")]
+            outs = [c for c in created if os.path.basename(c).startswith(tag + ".") or os.path.basename(c) == tag]
             loads = False
             if outs:
                 try:
